@@ -335,12 +335,12 @@ def check_class(model, cname, res):
     return len(terms)
 
 
-def eikonal(model, res):
+def eikonal(model, res, tier='quick'):
     n = 0
     for cname in CLASSES:
         n += check_class(model, cname, res)
     shadow_continuity(model, res)
-    branch_continuity(model, res)
+    branch_continuity(model, res, tier)
     if n < 10:
         raise AnalysisError('only %d arrival-time expressions analysed (confirmed: 11)' % n)
 
@@ -490,7 +490,7 @@ def shadow_continuity(model, res):
              "line-of-sight arrival time: the burn time jumps across the shadow boundary" % qstar.key()[:120])
 
 
-def branch_continuity(model, res):
+def branch_continuity(model, res, tier='quick'):
     """Kenamond3: every point-dependent `if` that selects between burn-time values is a boundary across which the burn time
     must be continuous.  The symbolic rule above proves it for the shadow test; this rule covers ANY such test (an added
     early-out, a re-ordered test) by witnesses: at the class defaults, for several distances |P| from the obstacle centre, the
@@ -630,7 +630,11 @@ def branch_continuity(model, res):
         c = ph.args[0]
         g = lambda s_val, q_val: (lambda l, r: None if l is None or r is None else l - r)(
             num(ev.nf(c.args[0]), s_val, q_val), num(ev.nf(c.args[1]), s_val, q_val))
-        for fac in (sp.Rational(10001, 10000), sp.Rational(21, 20), sp.Rational(3, 2), 4, 25):
+        facs = (sp.Rational(10001, 10000), sp.Rational(21, 20), sp.Rational(3, 2), 4, 25)
+        if tier == 'thorough':
+            facs = tuple(sorted(set(facs) | {sp.Rational(1001, 1000), sp.Rational(101, 100), sp.Rational(11, 10), sp.Rational(5, 4), 2, 3,
+                                             sp.Rational(3, 2) * lod / Rv, lod / Rv, 10, 100}))
+        for fac in facs:
             s_val = Rv ** 2 * fac ** 2
             lop = Rv * fac
             lo, hi = -lod * lop * sp.Rational(999999, 1000000), lod * lop * sp.Rational(999999, 1000000)
@@ -671,4 +675,4 @@ def branch_continuity(model, res):
                             "not a continuous first-arrival time" % (fac, sp.N(qb, 8), c.src[:80], sp.N(gap, 6)),
                             line=getattr(c.origin[1], 'lineno', 0) if c.origin else 0, construct=c.src))
             break
-    res.extra['kenamond3_branch_witnesses'] = tested
+    res.extra['kenamond3_branch_witnesses'] = res.extra.get('kenamond3_branch_witnesses', 0) + tested
